@@ -13,6 +13,7 @@ Clauses (names used in counters and violation records):
   disciplinary DisciplinaryOpt == MDF == closed form when there is no strong coupling
   space        design-space contents of each formulation; IDF refuses a space without a coupling
   optimum      SLSQP reaches the reference optimum of a strictly convex problem in every formulation
+               (f_opt within 1e-6 relative, x_opt within 2e-3 relative)
 """
 
 from __future__ import annotations
@@ -49,8 +50,10 @@ ASSUMPTIONS = [
     "the documented form (G(x,y)-y)/|ub-lb| of the consistency constraints is only observed; the verdict demands "
     "what the statement says: zero at y*, Jacobian = derivative of the value, reduced derivative = total derivative",
     "an optimisation that stops on its iteration budget is inconclusive for the optimum clause only",
-    "optimum clause: feasibility tolerances 1e-9 so that the reported optimum is the converged point, comparison "
-    "tolerance 1e-5 * max(1, |value|)",
+    "optimum clause: feasibility tolerances 1e-9 so that the reported optimum is the converged point; f_opt is "
+    "compared within 1e-6*max(1,|f|) and x_opt (and IDF's couplings) within 2e-3*max(1,|x|), the distance that the f "
+    "tolerance implies for a strongly convex objective of modulus 1 (with an active quadratic constraint and the 1e-9 "
+    "feasibility tolerance correct runs differ by up to 2e-5 in x while agreeing to 1e-10 in f)",
 ]
 ANCHORS = [
     "gemseo.formulations.mdf:MDF._update_design_space",
@@ -98,7 +101,8 @@ VALUE_TOL = 1e-8
 CONS_TOL = 1e-9
 JAC_TOL = 1e-6
 PARTIAL_TOL = 1e-9
-OPT_TOL = 1e-5
+OPT_F_TOL = 1e-6   # relative tolerance on f_opt
+OPT_X_TOL = 2e-3   # on x_opt: what f_opt within 1e-6 implies for a strongly convex objective (modulus 1): sqrt(2e-6)
 MDA_SETTINGS = {"tolerance": 1e-12, "max_mda_iter": 300, "linear_solver_tolerance": 1e-14}
 INNER = ["MDAJacobi", "MDAGaussSeidel", "MDANewtonRaphson"]
 
@@ -950,7 +954,7 @@ def run_opt_case(case, rep):
         if which == "IDF":
             dy = max([float(np.max(np.abs(np.asarray(xo[c]) - ref["sol"][c]) / np.maximum(1.0, np.abs(ref["sol"][c]))))
                       for c in ctx.couplings], default=0.0)
-        if max(dx, df, dy) > OPT_TOL:
+        if df > OPT_F_TOL or max(dx, dy) > OPT_X_TOL:
             tag = "duplicate-constraint-names" if duplicate else "plain"
             rep.violation(f"C17:opt:{which}:optimum-differs-from-reference:{tag}", "optimum", case,
                           observed={"form": key, "x_opt": xo, "f_opt": float(res.f_opt), "message": str(res.message),
